@@ -56,7 +56,7 @@ PROPS = {
         "level": "model_checking",
         "technique": "exhaustive enumeration of all request histories up to a depth on one connection through the real read/handle/send code under a controlled executor; differential oracle against fresh connections; the session-loop model is bound to the real Session::manage by replaying histories over loopback TCP in lock-step",
         "engine": "vmc",
-        "level_text": "History-space exploration: all sequences of length <=4 (quick) / <=5 (thorough) over 16 requests (hit, 404, two params, bodies of 3 bytes / NUL-leading / NUL in the middle / ending exactly at and one past the 1 KiB buffer / 2 KiB, custom+repeated headers, context-setting fang, HEAD, long query, malformed, short PUT, Connection: close), one segment per request, on a single RawConn reused through the harness copy of the session loop; every response must be byte-identical to the one the request gets alone on a fresh connection, nothing may follow Connection: close, no stall at a request boundary. All histories of length <=2 (quick) / <=2 plus a fifth of length 3 (thorough) are replayed against the real Session::manage over TCP; model and implementation must produce the same bytes and the same close outcome (mismatch = exit 2).",
+        "level_text": "History-space exploration: all sequences of length <=4 (quick) / <=5 (thorough) over 20 requests (hit, 404, two params, bodies of 3 bytes / NUL-leading / NUL in the middle / ending exactly at and one past the 1 KiB buffer / 2 KiB, custom+repeated headers, context-setting fang, HEAD, long query, malformed, short PUT, three requests refused after a query or header lines were stored, a query-less request with `=` in a header, Connection: close), one segment per request, on a single RawConn reused through the harness copy of the session loop; every response must be byte-identical to the one the request gets alone on a fresh connection, nothing may follow Connection: close, no stall at a request boundary. All histories of length <=2 (quick) / <=2 plus a fifth of length 3 (thorough) are replayed against the real Session::manage over TCP; model and implementation must produce the same bytes and the same close outcome (mismatch = exit 2).",
         "level_note": "Trusted: the 15-line harness copy of the session loop as a model of session/mod.rs (bound by the TCP replays), the scripted reader's lock-step delivery (next segment only when the loop is Pending in a read), the clock hook. Handlers that panic are outside the alphabet.",
         "jobs": {"quick": 8, "thorough": 16},
         "assumptions": COMMON_ASSUMPTIONS + ["loopback TCP in the sandbox behaves like TCP (segments written with TCP_NODELAY after the peer has drained its queue arrive as separate reads)"],
